@@ -69,6 +69,12 @@ func drawProb(t *rapid.T, n int, label string, allowBoundNeighbours bool) ([]flo
 			v[i] = 1
 			seen["clipped"] = true
 		case 4:
+			if rapid.Bool().Draw(t, label+"tiny") {
+				// inside the clipping interval but many orders of magnitude from the lattice
+				v[i] = rapid.SampledFrom([]float64{1e-9, 1e-7, 3e-11, 1e-4, 1 - 1e-9, 1 - 1e-7, 1 - 3e-11}).Draw(t, label+"tinyv")
+				seen["interior"] = true
+				break
+			}
 			m := rapid.SampledFrom([]float64{1.5, 3, 1e3, 1e6, -0.25, -2, -1e3, -1e6}).Draw(t, label+"out")
 			v[i] = m
 			seen["clipped"] = true
@@ -101,6 +107,35 @@ func checkC12(c LossCase) *Failure {
 	scale := math.Abs(want.V) + 1e-12
 	vals := []float64{}
 	compute := newLoss(c.Kind)
+	// the same loss object first serves a larger and a smaller batch (a training loop's full
+	// batches and short last batch); both are checked against the definition as well
+	for _, rep := range []int{3, 0} {
+		ws := ref.Cp(pl.Shape)
+		var wp, wt []float64
+		if rep > 0 {
+			ws[0] *= rep
+			for r := 0; r < rep; r++ {
+				wp = append(wp, pl.Vals...)
+				wt = append(wt, c.T...)
+			}
+		} else {
+			if ws[0] < 2 {
+				continue
+			}
+			ws[0]--
+			n := ref.Prod(ws)
+			wp, wt = pl.Vals[:n], c.T[:n]
+		}
+		ww, _ := refLoss(nil, c.Kind, ref.FromVals(ws, wp), ref.FromVals(ws, wt))
+		l, err := compute(lib.MustNew(ws, wp, false), lib.MustNew(ws, wt, false))
+		if err != nil {
+			return failf("%s.Compute rejected inputs of shape %v: %v", c.Kind, ws, err)
+		}
+		_, lv, err := lib.Read(l)
+		if err != nil || len(lv) != 1 || math.IsNaN(lv[0]) || math.Abs(lv[0]-ww.V) > 1e-9*(math.Abs(ww.V)+1e-12) {
+			return failf("%s on a batch of %d = %v, defined value %v", c.Kind, ws[0], lv, ww.V)
+		}
+	}
 	for _, tr := range [][2]bool{{pl.Tracked, c.TTr}, {false, false}, {true, true}} {
 		p := lib.MustNew(pl.Shape, pl.Vals, tr[0])
 		tg := lib.MustNew(pl.Shape, c.T, tr[1])
@@ -180,6 +215,21 @@ func genC13(t *rapid.T) LossCase {
 	c.T = tg
 	if rapid.IntRange(0, 2).Draw(t, "leafpred") == 0 {
 		p, _ := drawProb(t, n, "p", false)
+		if rapid.Bool().Draw(t, "nearsaturated") {
+			// strictly between 0 and 1 yet outside [1e-12, 1-1e-12]: clipped, zero gradient
+			for i := range p {
+				if rapid.IntRange(0, 2).Draw(t, "ns") == 0 {
+					p[i] = rapid.SampledFrom([]float64{1e-15, 3e-13, 5e-13, 1e-300, 1 - 1e-14, 1 - 3e-13}).Draw(t, "nsv")
+				}
+			}
+			if rapid.Bool().Draw(t, "allinside") {
+				for i := range p { // no element at or beyond 0 / 1 in this batch
+					if p[i] <= 0 || p[i] >= 1 {
+						p[i] = 0.25
+					}
+				}
+			}
+		}
 		c.Up = prog.Program{Leaves: []prog.Leaf{{Shape: s, Vals: p, Tracked: rapid.IntRange(0, 4).Draw(t, "ptracked") > 0}}}
 		return c
 	}
